@@ -101,6 +101,10 @@ class DnsRecordDnskey(ParsableBase, Serializable):
         key_parser.parse_mpint('public_exponent', exponent_length)
         key_parser.parse_mpint('modulus', key_parser.unparsed_length)
 
+        for name in ('public_exponent', 'modulus'):
+            if key_parser[name] == 0:
+                raise InvalidValue(key_parser[name], cls, name)
+
         return PublicKey.from_params(PublicKeyParamsRsa(
             public_exponent=key_parser['public_exponent'],
             modulus=key_parser['modulus'],
@@ -152,6 +156,10 @@ class DnsRecordDnskey(ParsableBase, Serializable):
         key_parser.parse_mpint('p', mpint_length)
         key_parser.parse_mpint('g', mpint_length)
         key_parser.parse_mpint('y', mpint_length)
+
+        # RFC 2536: the length of P, G and Y is given by T, so P fills its field
+        if (key_parser['p'].bit_length() + 7) // 8 != mpint_length:
+            raise InvalidValue(key_parser['p'], cls, 'p')
 
         return PublicKey.from_params(PublicKeyParamsDsa(
             prime=key_parser['p'],
